@@ -369,6 +369,14 @@ func (r *Runtime) checkHostObjectPropertyDescr(name unistring.String, descr Prop
 func (o *objectGoReflect) defineOwnPropertyStr(name unistring.String, descr PropertyDescriptor, throw bool) bool {
 	if o.val.runtime.checkHostObjectPropertyDescr(name, descr, throw) {
 		n := name.String()
+		if descr.Value == nil {
+			// a descriptor without [[Value]] leaves an existing field as it is
+			if o.hasOwnPropertyStr(name) {
+				return true
+			}
+			o.val.runtime.typeErrorResult(throw, "Cannot define property '%s' on a host object", n)
+			return false
+		}
 		if has, ok := o._put(n, descr.Value, throw); !has {
 			o.val.runtime.typeErrorResult(throw, "Cannot define property '%s' on a host object", n)
 			return false
